@@ -12,7 +12,8 @@ def api(draw, max_ops=5, links=None):
     n = draw(st.integers(1, max_ops))
     ops = []
     for i in range(n):
-        ops.append({"path": f"/r{i}", "behaviour": draw(st.sampled_from(BEHAVIOURS)), "with_example": draw(st.booleans()), "bounded": draw(st.booleans())})
+        # `bare`: an operation without any input (nothing to generate, nothing to negate)
+        ops.append({"path": f"/r{i}", "behaviour": draw(st.sampled_from(BEHAVIOURS)), "with_example": draw(st.booleans()), "bounded": draw(st.booleans()), "bare": draw(st.integers(0, 5)) == 0})
     with_links = draw(st.booleans()) if links is None else links
     return {"ops": ops, "links": with_links, "malformed": draw(st.integers(0, 5)) == 0, "binary_example": draw(st.integers(0, 7)) == 0, "link_target": draw(st.sampled_from(["ok", "ok", "500"])),
             # how the API root answers the capability probe (only matters when the probing phase is enabled)
@@ -44,7 +45,7 @@ def build_doc(api_: dict) -> dict:
             q["schema"].update(minimum=0, maximum=3)
         if op["with_example"]:
             q["example"] = 2
-        paths[op["path"]] = {"get": {"parameters": [q], "responses": {"200": {"description": "ok", "content": {"application/json": {"schema": {"type": "object", "properties": {"id": {"type": "integer"}}, "required": ["id"]}}}}}}}
+        paths[op["path"]] = {"get": {"parameters": [] if op.get("bare") else [q], "responses": {"200": {"description": "ok", "content": {"application/json": {"schema": {"type": "object", "properties": {"id": {"type": "integer"}}, "required": ["id"]}}}}}}}
     if api_["links"]:
         paths["/c"] = {"post": {"operationId": "c", "requestBody": {"required": True, "content": {"application/json": {"schema": {"type": "object", "properties": {"n": {"type": "integer"}}, "required": ["n"]}}}},
                                 "responses": {"201": {"description": "ok", "content": {"application/json": {"schema": {"type": "object"}}}, "links": {"l": {"operationId": "g", "parameters": {"id": "$response.body#/id"}}}}}}}
@@ -113,7 +114,7 @@ def config(draw, phases=None):
         "max_examples": draw(st.integers(1, 8)),
         "stateful_step_count": draw(st.integers(1, 5)),
         "seed": draw(st.integers(0, 10000)),
-        "modes": draw(st.sampled_from([["positive"], ["positive", "negative"]])),
+        "modes": draw(st.sampled_from([["positive"], ["positive", "negative"], ["negative"]])),
         "checks": draw(st.sampled_from(CHECK_SETS)),
         "no_shrink": draw(st.booleans()),
     }
